@@ -18,7 +18,7 @@
 (* VARIABLES  G, L, cen : the instance (form, limit, centring letter)      *)
 (*   h,k,l,hs,ks,ls,b  : the seven variables of the loop nest              *)
 (*   pc    : "H" "K" "L" loop heads, "afterL" "afterK" loop tails,         *)
-(*           "sort", "oracle" (ghost), "done"                              *)
+(*           "sort", "oracle" (ghost), "done"; "big" (SpecBig only)        *)
 (*   sphere : ghost, all non-zero hkl with Q < L (set at "oracle")         *)
 (*   hits  : every in-range hkl in visiting order as <<h,k,l,p>>, p = 1    *)
 (*           when the code appended it to `peaks`, 0 when `absent` said no *)
@@ -43,21 +43,45 @@
 (* theorem: right-angled with a <= b is complete.  The invariants that do  *)
 (* hold for the model (WalkInv) are checked in every configuration.        *)
 (* BoxInv proves, on the same instances, that enumeration over the         *)
-(* bounding box |h_i| <= floor(dsmax * a_i) (the proposed repair, algo     *)
-(* "box" in the harness) finds exactly the brute-force set.                *)
+(* bounding box |h_i| <= floor(dsmax * a_i) (the repair, since adopted in  *)
+(* /repo: gethkls at HEAD is this enumeration; algo "box" in the harness)  *)
+(* finds exactly the brute-force set.                                      *)
+(*                                                                         *)
+(* BIG INSTANCES (SpecBig, HklWalk_big_*.cfg).  The small forms above      *)
+(* produce candidate boxes of at most a few thousand hkl; code paths that  *)
+(* depend on SIZE (number of candidates (2hmax+1)(2kmax+1)(2lmax+1), list  *)
+(* length, |h|,|k|,|l| beyond 127 and up to the documented cap 199, number *)
+(* of rings) are out of their reach.  BigCases is a set of <<form, limit,  *)
+(* centring>> with boxes of 1.1e5 .. 2.0e6 candidates: cubic, orthorhombic,*)
+(* long-axis (an index reaches +-199 on each axis in turn), hexagonal,     *)
+(* monoclinic, rhombohedral (acute and obtuse) and triclinic metrics.      *)
+(* For these the loop nest is not stepped through; the single action       *)
+(* BigRun stands for the whole enumeration and the model is the candidate  *)
+(* box of the code at HEAD (hmax = min(int(dsmax a),199), ..., origin      *)
+(* skipped, `outif` table).  TLC evaluates, with exact integers,           *)
+(*   BigBoxInv : the box enumeration yields the brute-force set (count and *)
+(*               identity checksum over the Cauchy-Schwarz box agree),     *)
+(*   EmitBig   : count, two checksums and (up to 1.2e6 candidates) the     *)
+(*               number of Q shells of the textbook brute-force set.       *)
+(* The harness judges the real list against its own vectorised brute force *)
+(* (complete, sound, no duplicates, ascending, no (0,0,0), ds = |B.hkl|)   *)
+(* which must reproduce the numbers emitted here, and the ring tables made *)
+(* from these lists (rings = Q shells for a tolerance below every gap).    *)
 (*                                                                         *)
 (* BOUNDS   Forms / Limits / Centrings are chosen in the .cfg files        *)
 (* (quick: diagonal 1..3, off-diagonal -1..1; thorough: 1..4 / -2..2;      *)
-(* named lattices; TIE: dyadic diagonal; CAP: the |l| < 200 guard).        *)
+(* named lattices; TIE: dyadic diagonal; CAP: the |l| < 200 guard;         *)
+(* BIG: BigQuick = one or two centrings per form, BigThorough = all 7).    *)
 (* HMAX = 200 as in the code.                                              *)
 (***************************************************************************)
-EXTENDS Integers, Sequences, FiniteSets, TLC, Json
+EXTENDS Integers, Sequences, FiniteSets, FiniteSetsExt, TLC, Json
 
 CONSTANTS HMAX,        \* 200 in the code
           Forms, Limits, Centrings,
           Outif,       \* centring letter -> name of the rule the code applies
           TIE,         \* TRUE: the harness passes dsmax^2 = L/scale exactly
-          ORACLE       \* FALSE only in the CAP configuration (numbers beyond 32 bit): no brute force
+          ORACLE,      \* FALSE only in the CAP configuration (numbers beyond 32 bit): no brute force
+          BigCases     \* set of <<form, limit, centring>> for SpecBig ({} in the walk configurations)
 
 VARIABLES G, L, cen, h, k, l, hs, ks, ls, b, pc, hits, nvis, vh, sorted, sphere
 vars == <<G, L, cen, h, k, l, hs, ks, ls, b, pc, hits, nvis, vh, sorted, sphere>>
@@ -73,10 +97,17 @@ AdjD(g) == << g[2]*g[3] - g[4]*g[4], g[1]*g[3] - g[5]*g[5], g[1]*g[2] - g[6]*g[6
 \* off-diagonal adjugate entries 23, 13, 12 (direct-cell angle cosines)
 AdjO(g) == << g[5]*g[6] - g[1]*g[4], g[4]*g[6] - g[2]*g[5], g[4]*g[5] - g[3]*g[6] >>
 
+RECURSIVE GCD(_, _)
+GCD(x, y) == IF y = 0 THEN x ELSE GCD(y, x % y)            \* arguments >= 0
+GCD6(a1, a2, a3, a4, a5, a6) == GCD(GCD(GCD(Abs(a1), Abs(a2)), GCD(Abs(a3), Abs(a4))), GCD(Abs(a5), Abs(a6)))
+
 \* The property is quantified over cells with angles in [55,125] degrees and edges in [2,30] A.
 \* cos^2(55 deg) = 0.32898...; 328/1000 is just inside.  Edge ratio <= sqrt(200) < 15 so a scale exists.
+\* (homogeneous in the adjugate: its entries are divided by their common factor first, 32-bit safety)
 InDomain(g) ==
-  LET d == AdjD(g)  o == AdjO(g) IN
+  LET c == GCD6(AdjD(g)[1], AdjD(g)[2], AdjD(g)[3], AdjO(g)[1], AdjO(g)[2], AdjO(g)[3])
+      d == << AdjD(g)[1] \div c, AdjD(g)[2] \div c, AdjD(g)[3] \div c >>
+      o == << AdjO(g)[1] \div c, AdjO(g)[2] \div c, AdjO(g)[3] \div c >> IN
   /\ o[1]*o[1]*1000 <= 328*d[2]*d[3]
   /\ o[2]*o[2]*1000 <= 328*d[1]*d[3]
   /\ o[3]*o[3]*1000 <= 328*d[1]*d[2]
@@ -201,8 +232,10 @@ Sort == /\ pc = "sort" /\ pc' = "oracle"
    x_i^2 <= Q(x) (G^-1)_ii = Q(x) AdjD_i / Det with Q <= L - 1; the harness re-derives the set
    over a fixed larger cube for every emitted case. *)
 ISqrt(num, den) == CHOOSE n \in 0..(2*HMAX) : n*n*den <= num /\ (n + 1)*(n + 1)*den > num
+\* AdjD_i / Det in lowest terms (keeps limit * numerator inside 32 bits for the BIG instances)
+Frac(i) == LET d == GCD(AdjD(G)[i], Det(G)) IN << AdjD(G)[i] \div d, Det(G) \div d >>
 LB == IF TIE THEN L ELSE L - 1          \* TIE: also collect the points exactly on the limit
-Bnd(i) == ISqrt(LB*AdjD(G)[i], Det(G))
+Bnd(i) == ISqrt(LB*Frac(i)[1], Frac(i)[2])
 InSphere == { x \in (-Bnd(1)..Bnd(1)) \X (-Bnd(2)..Bnd(2)) \X (-Bnd(3)..Bnd(3)) :
                 x # <<0, 0, 0>> /\ QT(x) <= LB }
 Oracle == /\ pc = "oracle" /\ pc' = "done" /\ sphere' = IF ORACLE THEN InSphere ELSE {}
@@ -242,7 +275,7 @@ HexComplete  == (G[4] = 0 /\ G[5] = 0 /\ G[1] = G[2] /\ G[1] = 2*G[6]) => Proper
 (* ---------------- invariants the walk model itself satisfies --------------------------- *)
 TypeOK == /\ h \in -HMAX..HMAX /\ k \in -HMAX..HMAX /\ l \in -HMAX..HMAX
           /\ hs \in {-1, 1} /\ ks \in {-1, 1} /\ ls \in {-1, 1} /\ b \in 0..12
-          /\ pc \in {"H", "K", "L", "afterL", "afterK", "sort", "oracle", "done"}
+          /\ pc \in {"H", "K", "L", "afterL", "afterK", "sort", "oracle", "big", "done"}
 \* TypeOK in every state; the rest once per instance at "done" (hits only grows, so checking the
 \* final sequence covers every prefix)
 WalkInv == /\ TypeOK
@@ -259,14 +292,94 @@ WalkInv == /\ TypeOK
 
 (* ---------------- the proposed repair: enumerate the bounding box ---------------------- *)
 \* hm_i = min(int(dsmax * a_i), 199) with (dsmax a_i)^2 = (2L-1) AdjD_i / (2 Det)   [TIE: L AdjD_i / Det]
-BoxNum(i) == IF TIE THEN L*AdjD(G)[i] ELSE (2*L - 1)*AdjD(G)[i]
-BoxDen    == IF TIE THEN Det(G) ELSE 2*Det(G)
-BoxHalf(i) == LET n == ISqrt(BoxNum(i), BoxDen) IN IF n > HMAX - 1 THEN HMAX - 1 ELSE n
-BoxTie == \E i \in 1..3 : LET n == ISqrt(BoxNum(i), BoxDen) IN n*n*BoxDen = BoxNum(i)
+BoxNum(i) == IF TIE THEN L*Frac(i)[1] ELSE (2*L - 1)*Frac(i)[1]
+BoxDen(i) == IF TIE THEN Frac(i)[2] ELSE 2*Frac(i)[2]
+BoxHalf(i) == LET n == ISqrt(BoxNum(i), BoxDen(i)) IN IF n > HMAX - 1 THEN HMAX - 1 ELSE n
+BoxTie == \E i \in 1..3 : LET n == ISqrt(BoxNum(i), BoxDen(i)) IN n*n*BoxDen(i) = BoxNum(i)
 BoxGot == { x \in (-BoxHalf(1)..BoxHalf(1)) \X (-BoxHalf(2)..BoxHalf(2)) \X (-BoxHalf(3)..BoxHalf(3)) :
               x # <<0, 0, 0>> /\ QT(x) < L /\ ~CodeAbsent(cen, x[1], x[2], x[3]) }
 \* checked only at "done" (once per instance): the box enumeration finds exactly the brute-force set
 BoxInv == Done => BoxGot = BruteCode
+
+(* ---------------- BIG instances: size-dependent code paths (SpecBig) ------------------- *)
+\* <<reciprocal form, limit>>; candidate boxes (2hmax+1)(2kmax+1)(2lmax+1) in brackets
+BigTable == { << <<1, 1, 1, 0, 0, 0>>, 1089 >>,           \* cubic, 30 A at d* < 1.1        [65^3 = 2.7e5]
+              << <<1, 1, 1, 0, 0, 0>>, 3970 >>,           \* cubic                          [127^3 = 2.0e6]
+              << <<1, 2, 3, 0, 0, 0>>, 4540 >>,           \* orthorhombic                   [135.95.77 = 9.9e5]
+              << <<1, 9, 25, 0, 0, 0>>, 4000 >>,          \* orthorhombic, long a           [127.43.25 = 1.4e5]
+              << <<1, 200, 200, 0, 0, 0>>, 39800 >>,      \* h reaches +-199                [399.29.29 = 3.4e5]
+              << <<200, 1, 200, 0, 0, 0>>, 39800 >>,      \* k reaches +-199
+              << <<180, 180, 1, 0, 0, 90>>, 39800 >>,     \* hexagonal, l reaches +-199     [35.35.399 = 4.9e5]
+              << <<4, 4, 1, 0, 0, 2>>, 3700 >>,           \* hexagonal                      [71.71.121 = 6.1e5]
+              << <<2, 3, 4, 0, 1, 0>>, 1600 >>,           \* monoclinic                     [61.47.43 = 1.2e5]
+              << <<3, 3, 3, -1, -1, -1>>, 2900 >>,        \* rhombohedral, alpha = 60       [77^3 = 4.6e5]
+              << <<2, 2, 2, 1, 1, 1>>, 1500 >>,           \* rhombohedral, alpha = 109.5    [67^3 = 3.0e5]
+              << <<4, 5, 6, -2, 1, -1>>, 6000 >>,         \* triclinic                      [4.2e5]
+              << <<7, 9, 11, -3, 2, -4>>, 7000 >>  }      \* triclinic                      [2.7e5]
+BigNone     == {}
+BigThorough == { <<p[1], p[2], c>> : p \in BigTable, c \in AllLetters }
+\* quick tier: every centring at least once on a box > 2e5, every metric class, all three axes
+BigQuick == { << <<1, 1, 1, 0, 0, 0>>, 1089, "F" >>,  << <<1, 1, 1, 0, 0, 0>>, 3970, "I" >>,
+              << <<1, 2, 3, 0, 0, 0>>, 4540, "C" >>,  << <<1, 200, 200, 0, 0, 0>>, 39800, "A" >>,
+              << <<200, 1, 200, 0, 0, 0>>, 39800, "I" >>, << <<180, 180, 1, 0, 0, 90>>, 39800, "P" >>,
+              << <<4, 4, 1, 0, 0, 2>>, 3700, "R" >>,  << <<2, 3, 4, 0, 1, 0>>, 1600, "R" >>,
+              << <<3, 3, 3, -1, -1, -1>>, 2900, "B" >>, << <<4, 5, 6, -2, 1, -1>>, 6000, "F" >>,
+              << <<7, 9, 11, -3, 2, -4>>, 7000, "P" >> }
+
+InitBig == /\ \E c \in BigCases : G = c[1] /\ L = c[2] /\ cen = c[3]
+           /\ h = 0 /\ k = 0 /\ l = 0 /\ hs = 1 /\ ks = 1 /\ ls = 1 /\ b = 0
+           /\ pc = "big" /\ hits = <<>> /\ nvis = 0 /\ vh = 0 /\ sorted = <<>> /\ sphere = {}
+\* the whole enumeration in one step (nothing of the instance changes; the sets are evaluated,
+\* by counting, in the invariants below)
+BigRun == /\ pc = "big" /\ pc' = "done"
+          /\ UNCHANGED <<Inst, h, k, l, hs, ks, ls, b, hits, nvis, vh, sorted, sphere>>
+SpecBig == InitBig /\ [][BigRun]_vars
+
+\* One pass over a box bx = <<hmax, kmax, lmax>>: for every row (x, y, .) the members are filtered once
+\* (Q(x,y,z) = c0 + z (g33 z + c1), the row constants c0, c1 are hoisted) and summarised as
+\* <<count, sum of Q, sum of hkl codes>>; sums are taken modulo HP, row by row, so that no set of
+\* 1e6 tuples is ever built and every intermediate number stays inside 32 bits.
+HP == 1000003
+NonZero(x, y, z) == ~(x = 0 /\ y = 0 /\ z = 0)
+AbsBrute(x, y, z) == ~Allowed(cen, x, y, z)          \* the property: textbook rule of the named centring
+AbsCode(x, y, z)  == CodeAbsent(cen, x, y, z)        \* the code's table
+Row(x, y, bz, absent(_, _, _)) ==
+  LET c0 == G[1]*x*x + G[2]*y*y + 2*G[6]*x*y
+      c1 == 2*(G[4]*y + G[5]*x)
+  IN { z \in (-bz)..bz : c0 + z*(G[3]*z + c1) < L /\ NonZero(x, y, z) /\ ~absent(x, y, z) }
+RowSum(x, y, bz, absent(_, _, _)) ==
+  LET row == Row(x, y, bz, absent)
+  IN << Cardinality(row),
+        FoldSet(LAMBDA z, a : a + Q(G, x, y, z), 0, row) % HP,
+        FoldSet(LAMBDA z, a : a + (Code(x, y, z) % HP), 0, row) % HP >>
+Add3(r, a) == << a[1] + r[1], (a[2] + r[2]) % HP, (a[3] + r[3]) % HP >>
+BoxSum(bx, absent(_, _, _)) ==
+  FoldSet(LAMBDA x, a1 : Add3(FoldSet(LAMBDA y, a2 : Add3(RowSum(x, y, bx[3], absent), a2),
+                                      <<0, 0, 0>>, (-bx[2])..bx[2]), a1),
+          <<0, 0, 0>>, (-bx[1])..bx[1])
+\* number of distinct Q values (= number of shells = number of rings for a tolerance below every gap)
+BoxShells(bx, absent(_, _, _)) ==
+  Cardinality(UNION { UNION { { Q(G, x, y, z) : z \in Row(x, y, bx[3], absent) } : y \in (-bx[2])..bx[2] }
+                      : x \in (-bx[1])..bx[1] })
+SphereBox == <<Bnd(1), Bnd(2), Bnd(3)>>             \* Cauchy-Schwarz: contains every hkl with Q <= L - 1
+CodeBox   == <<BoxHalf(1), BoxHalf(2), BoxHalf(3)>> \* what gethkls enumerates
+IsBig == BigCases # {}
+\* the enumeration over the code's box finds exactly what the brute force over the sphere box finds
+\* (count and both checksums; when the two boxes coincide the two sides are the same expression)
+BigBoxInv == (IsBig /\ Done) =>
+   (CodeBox = SphereBox \/ BoxSum(CodeBox, AbsCode) = BoxSum(SphereBox, AbsCode))
+EmitBig == ~(IsBig /\ Done) \/
+  LET s == BoxSum(SphereBox, AbsBrute) IN
+  PrintT("@@" \o ToJson(
+     [ g |-> G, lim |-> L, cen |-> cen, tie |-> FALSE, big |-> TRUE, dom |-> InDomain(G), rule |-> Outif[cen],
+       box |-> CodeBox, boxtie |-> BoxTie, bnd |-> SphereBox,
+       nbox |-> (2*BoxHalf(1) + 1)*(2*BoxHalf(2) + 1)*(2*BoxHalf(3) + 1),
+       nb  |-> s[1],                                  \* size of the brute-force set
+       hq  |-> s[2],                                  \* sum of Q  (mod HP)
+       hc  |-> s[3],                                  \* sum of the hkl codes (mod HP)
+       \* number of shells (a second pass over the box: left to the harness alone, -1, beyond 1.2e6 candidates)
+       nsh |-> IF (2*Bnd(1) + 1)*(2*Bnd(2) + 1)*(2*Bnd(3) + 1) > 1200000 THEN -1
+               ELSE BoxShells(SphereBox, AbsBrute) ]))
 
 (* ---------------- emission: one JSON record per finished walk -------------------------- *)
 Emit == ~Done \/
